@@ -2,7 +2,7 @@
     use crate::app::variations::verif_kani_c09_fixed as fx;
     use crate::app::variations::{Group2Var3, Group12Var1, Group41Var4};
 
-    // @harness ids=C09,C01 tier=quick kind=proof units=app::parse::prefix::Prefix::read,app::parse::prefix::Prefix::write,app::parse::traits::FixedSize::read,app::parse::traits::FixedSize::write timeout=300 note="Prefix<u16, g12v1> (index + CROB, 13 bytes): same contract as the bare objects: index and every object field bit-identical after write/read, cursor moves by 2+11, one byte short rejected by both, bytes -> value -> bytes is the identity"
+    // @harness ids=C09,C01 tier=thorough kind=proof units=app::parse::prefix::Prefix::read,app::parse::prefix::Prefix::write,app::parse::traits::FixedSize::read,app::parse::traits::FixedSize::write timeout=300 note="Prefix<u16, g12v1> (index + CROB, 13 bytes): same contract as the bare objects: index and every object field bit-identical after write/read, cursor moves by 2+11, one byte short rejected by both, bytes -> value -> bytes is the identity"
     #[kani::proof]
     #[kani::unwind(18)]
     fn vk_c09_fixed_prefix_u16_g12v1() {
